@@ -177,9 +177,20 @@ type World struct {
 	cancel  context.CancelFunc
 	Crash   string
 
+	// harness-owned bookkeeping of the hand-over rule (independent of the sidecars' counters):
+	// requested state per (shard, hash) as delivered by targets POSTs, and the number of scrape
+	// attempts the shard made for the hash since it was assigned / since it was marked in_transfer
+	ReqState    map[int]map[uint64]string
+	SinceChange map[int]map[uint64]int
+	Attempts    map[int]map[uint64]int // scrape attempts per (shard, hash) since the copy exists
+	MoveStart   map[int]map[uint64]int // Attempts value of a holder when another shard was given the target (-1: none)
+	HandOver    []string               // violations of the hand-over rule seen by the harness counters
+	delivered   []deliveredPost
+
 	cur        *CycleRec
 	Cycles     []*CycleRec
 	MaxShards  int
+	Restarts   int
 	Transfers  int
 	ScaleMoves int
 	farmCli    *http.Client
@@ -396,8 +407,14 @@ func (w *World) apiPost(ord int) func(string, interface{}, interface{}) error {
 				return fmt.Errorf("post not delivered (injected)")
 			}
 		}
+		lose := isTargets && matchPost(sc.LoseReply, sc, body) // judged on the state before delivery
 		code, data := serve(sc.Svc, "POST", u, body)
-		if isTargets && matchPost(sc.LoseReply, sc, body) {
+		if isTargets && code == 200 {
+			w.mu.Lock()
+			w.delivered = append(w.delivered, deliveredPost{ord, body})
+			w.mu.Unlock()
+		}
+		if lose {
 			w.mu.Lock()
 			w.cur.FaultFired = append(w.cur.FaultFired, fmt.Sprintf("loseReply/%s@%d", sc.LoseReply, ord))
 			w.mu.Unlock()
@@ -406,6 +423,119 @@ func (w *World) apiPost(ord int) func(string, interface{}, interface{}) error {
 		}
 		return dealResp(code, data, ret)
 	}
+}
+
+type deliveredPost struct {
+	ord  int
+	body []byte
+}
+
+// processDelivered applies the targets POSTs delivered during one cycle to the harness' own
+// bookkeeping in a fixed order (the coordinator sends them concurrently): first every new copy
+// (a move starts for the other holders), then states, removals and the hand-over judgement.
+func (w *World) processDelivered() {
+	w.mu.Lock()
+	posts := w.delivered
+	w.delivered = nil
+	w.mu.Unlock()
+	sort.SliceStable(posts, func(i, j int) bool { return posts[i].ord < posts[j].ord })
+	for _, p := range posts {
+		w.noteDelivered(p.ord, p.body, true, false)
+	}
+	for _, p := range posts {
+		w.noteDelivered(p.ord, p.body, false, false)
+	}
+}
+
+// noteDelivered updates the harness' own view of what shard ord was told to scrape.
+// additionsOnly: only register new copies (and the move starts they imply); initial: placement
+// written before the first cycle (duplicates in it are not moves).
+func (w *World) noteDelivered(ord int, body []byte, additionsOnly, initial bool) {
+	var b struct {
+		Targets map[string][]struct {
+			Hash        uint64 `json:"hash"`
+			TargetState string `json:"TargetState"`
+		}
+	}
+	_ = json.Unmarshal(body, &b)
+	w.mu.Lock()
+	defer w.mu.Unlock()
+	if w.ReqState == nil {
+		w.ReqState = map[int]map[uint64]string{}
+		w.SinceChange = map[int]map[uint64]int{}
+		w.Attempts = map[int]map[uint64]int{}
+		w.MoveStart = map[int]map[uint64]int{}
+	}
+	if w.Attempts[ord] == nil {
+		w.Attempts[ord] = map[uint64]int{}
+		w.MoveStart[ord] = map[uint64]int{}
+	}
+	old := w.ReqState[ord]
+	nw := map[uint64]string{}
+	cnt := w.SinceChange[ord]
+	if cnt == nil {
+		cnt = map[uint64]int{}
+	}
+	ncnt := map[uint64]int{}
+	for _, ts := range b.Targets {
+		for _, t := range ts {
+			nw[t.Hash] = t.TargetState
+			prev, had := old[t.Hash]
+			if !had && (additionsOnly || initial) {
+				w.Attempts[ord][t.Hash] = 0
+			}
+			switch {
+			case !had:
+				ncnt[t.Hash] = 0 // newly assigned
+			case prev == "" && t.TargetState == "in_transfer":
+				ncnt[t.Hash] = 0 // the move begins now
+			default:
+				ncnt[t.Hash] = cnt[t.Hash]
+			}
+		}
+	}
+	if additionsOnly {
+		if w.ReqState[ord] == nil {
+			w.ReqState[ord] = map[uint64]string{}
+			w.SinceChange[ord] = map[uint64]int{}
+		}
+		for h, st := range nw {
+			if _, had := old[h]; !had {
+				w.ReqState[ord][h] = st
+				w.SinceChange[ord][h] = 0
+			}
+		}
+		return
+	}
+	// hand-over rule, judged with the harness' counters: an in_transfer copy that disappears from the
+	// list while the target is still discovered needs >= 3 own scrapes since the move began and a
+	// normal copy elsewhere with >= 3 scrapes since it was assigned
+	for h, prev := range old {
+		if _, still := nw[h]; still || prev != "in_transfer" || w.Farm[h] == nil {
+			continue
+		}
+		best, otherTransfer := -1, false
+		for o, st := range w.ReqState {
+			if o == ord {
+				continue
+			}
+			if s, ok := st[h]; ok {
+				if s == "in_transfer" {
+					otherTransfer = true
+				} else if w.SinceChange[o][h] > best {
+					best = w.SinceChange[o][h]
+				}
+			}
+		}
+		if otherTransfer {
+			continue
+		}
+		if best < 3 || cnt[h] < 3 {
+			w.HandOver = append(w.HandOver, fmt.Sprintf("cycle %d: in_transfer copy of target %d removed from shard %d after %d scrape attempts since the move began; best normal copy elsewhere has %d attempts since its assignment", len(w.Cycles)+1, h, ord, cnt[h], best))
+		}
+	}
+	w.ReqState[ord] = nw
+	w.SinceChange[ord] = ncnt
 }
 
 func summarizePost(body []byte) string {
@@ -557,6 +687,7 @@ func NewWorld(c *Case) (*World, error) {
 			if code, body := serve(sc.Svc, "POST", "http://x/api/v1/shard/targets/", mustJSON(&shard.UpdateTargetsRequest{Targets: per[i]})); code != 200 {
 				return nil, fmt.Errorf("initial placement on shard %d answered %d %s", i, code, body)
 			}
+			w.noteDelivered(i, mustJSON(&shard.UpdateTargetsRequest{Targets: per[i]}), false, true)
 		}
 	}
 	// a copy that is in_transfer in the initial placement became so through an
@@ -631,6 +762,12 @@ func (w *World) addShard() {
 func (w *World) dropTailShard() {
 	ord := len(w.Shards) - 1
 	w.Shards = w.Shards[:ord]
+	w.mu.Lock()
+	delete(w.ReqState, ord)
+	delete(w.SinceChange, ord)
+	delete(w.Attempts, ord)
+	delete(w.MoveStart, ord)
+	w.mu.Unlock()
 	if !w.Case.RetainStore {
 		_ = os.RemoveAll(w.stores[ord])
 		delete(w.stores, ord)
@@ -656,6 +793,7 @@ func (w *World) Restart(i int) {
 	old := w.Shards[i]
 	n := w.newSidecar(i, old.Dir)
 	w.Shards[i] = n
+	w.Restarts++
 }
 
 // Scrape performs one simulated Prometheus scrape round on shard i.
@@ -680,6 +818,16 @@ func (w *World) Scrape(i int) {
 			req := httptest.NewRequest("GET", u, nil)
 			rec := httptest.NewRecorder()
 			sc.Proxy.ServeHTTP(rec, req)
+			w.mu.Lock()
+			if w.SinceChange != nil && w.SinceChange[i] != nil {
+				if _, ok := w.SinceChange[i][t.Hash]; ok {
+					w.SinceChange[i][t.Hash]++
+				}
+				if w.Attempts[i] != nil {
+					w.Attempts[i][t.Hash]++
+				}
+			}
+			w.mu.Unlock()
 			if rec.Code == 200 {
 				n := int64(0)
 				for _, line := range bytes.Split(rec.Body.Bytes(), []byte("\n")) {
@@ -740,6 +888,7 @@ func (w *World) Cycle() *CycleRec {
 		w.Crash = "cycle did not complete"
 	}
 	rec.After = w.snapshot()
+	w.processDelivered()
 	for _, f := range rec.FaultFired {
 		_ = f
 		rec.AllInSync = false
@@ -854,6 +1003,13 @@ func (w *World) Do(a Action) {
 			sc := w.Shards[a.Shard]
 			_ = sc.Cfg.ReloadFromRaw([]byte("global:\n  scrape_interval: 33s\n"))
 			sc.RejectCfg = a.K
+		}
+	case "scaleDown":
+		// somebody scales the StatefulSet down by one from outside; it stays that way until the
+		// coordinator asks for something else
+		if len(w.Shards) > 0 {
+			w.dropTailShard()
+			w.Desired = int32(len(w.Shards))
 		}
 	case "killTail":
 		// the tail shard disappears (scaled away from outside) and the StatefulSet re-creates it
